@@ -42,6 +42,23 @@ def call(interp, info, args):
 def tok_field(interp, t, elem):
     if t.extra and "fields" in t.extra and elem in t.extra["fields"]:
         return t.extra["fields"][elem]
+    if t.kind == "V" and isinstance(elem, int):
+        # an opaque version whose fields are looked at although the analysis treats it as a point of the order:
+        # the field values are free (explored), so a result that depends on them cannot match the reference in
+        # every branch. Numeric fields: equality-only tokens with a chosen class; prerelease list: empty or not.
+        names = interp.prog.field_names("Version")
+        fname = names[elem] if elem < len(names) else None
+        memo = interp.__dict__.setdefault("_lazy_fields", {})
+        k = (t.name, fname)
+        if k not in memo:
+            if fname in ("major", "minor", "patch"):
+                memo[k] = Tok("I", "%s.%s" % (t.name, fname), interp.ctx.choose("free-field", 2), dom=fname, extra={"eq_only": True})
+            elif fname == "pre_release":
+                memo[k] = Tok("L", "%s.pre_release" % t.name, (0,) if interp.ctx.choose("free-prerelease", 2) else (),
+                              dom="pre_release:" + t.name)
+            else:
+                raise Inconclusive("field %s of opaque version %r" % (fname, t), interp.where())
+        return memo[k]
     raise Inconclusive("field projection %r on opaque token %r" % (elem, t), interp.where())
 
 
@@ -431,7 +448,8 @@ def m_vec_len(interp, args, info):
     raise Inconclusive("Vec::len on %r" % (v,), interp.where())
 
 
-@model("<std::vec::Vec<T, A> as std::ops::Deref>::deref", "std::string::String::as_bytes",
+@model("<std::vec::Vec<T, A> as std::ops::Deref>::deref", "<std::vec::Vec<T, A> as std::ops::DerefMut>::deref_mut",
+       "std::vec::Vec::<T, A>::as_mut_slice", "std::vec::Vec::<T, A>::as_slice", "std::string::String::as_bytes",
        "<std::string::String as std::ops::Deref>::deref")
 def m_vec_deref(interp, args, info):
     return args[0]
@@ -1570,3 +1588,125 @@ def m_clamp(interp, args, info):
     if cmp_values(interp, v, hi) > 0:
         return hi
     return v
+
+
+@model("std::fmt::Formatter::<'a>::pad")
+def m_fmt_pad(interp, args, info):
+    s_ = interp.strip(args[1])
+    if isinstance(s_, StrV):
+        interp.load(args[0]).out.append(("lit", s_.s))
+    elif isinstance(s_, Tok):
+        interp.load(args[0]).out.append(("tok", s_))
+    else:
+        raise Inconclusive("Formatter::pad with %r" % (s_,), interp.where())
+    return ok(UNIT)
+
+
+@model("std::fmt::Formatter::<'a>::write_char", "<std::fmt::Formatter<'_> as std::fmt::Write>::write_char")
+def m_fmt_write_char(interp, args, info):
+    c = args[1]
+    if not isinstance(c, int):
+        raise Inconclusive("write_char with %r" % (c,), interp.where())
+    interp.load(args[0]).out.append(("lit", chr(c)))
+    return ok(UNIT)
+
+
+def _sort_list(interp, p, cmpf):
+    import functools
+    c, path = interp.deref(p)
+    v = interp.read(c, path)
+    while isinstance(v, (Ptr, BoxV)):
+        c, path = interp.deref(v)
+        v = interp.read(c, path)
+    if not isinstance(v, ListV):
+        raise Inconclusive("sort on %r" % (v,), interp.where())
+    items = sorted(v.items, key=functools.cmp_to_key(cmpf))     # Python's sort is stable, like slice::sort
+    interp.write(c, path, ListV(items))
+    return UNIT
+
+
+@model("std::slice::<impl [T]>::sort", "core::slice::<impl [T]>::sort_unstable", "alloc::slice::<impl [T]>::sort")
+def m_slice_sort(interp, args, info):
+    return _sort_list(interp, args[0], lambda a, b: cmp_values(interp, a, b))
+
+
+@model("std::slice::<impl [T]>::sort_by", "core::slice::<impl [T]>::sort_unstable_by", "alloc::slice::<impl [T]>::sort_by")
+def m_slice_sort_by(interp, args, info):
+    return _sort_list(interp, args[0], lambda a, b: ordering_to_int(interp.call_value(args[1], [mkref(a), mkref(b)])))
+
+
+@model("std::slice::<impl [T]>::sort_by_key", "core::slice::<impl [T]>::sort_unstable_by_key", "alloc::slice::<impl [T]>::sort_by_key",
+       "std::slice::<impl [T]>::sort_by_cached_key")
+def m_slice_sort_by_key(interp, args, info):
+    return _sort_list(interp, args[0], lambda a, b: cmp_values(interp, interp.call_value(args[1], [mkref(a)]),
+                                                               interp.call_value(args[1], [mkref(b)])))
+
+
+@model("core::str::<impl str>::starts_with", "core::str::<impl str>::ends_with", "core::str::<impl str>::contains")
+def m_str_starts_with(interp, args, info):
+    s_ = interp.strip(args[0])
+    pat = args[1]
+    if isinstance(s_, StrV) and isinstance(pat, (int, StrV)):
+        needle = chr(pat) if isinstance(pat, int) else pat.s
+        which = info["def"].rsplit("::", 1)[1]
+        return {"starts_with": s_.s.startswith, "ends_with": s_.s.endswith, "contains": s_.s.__contains__}[which](needle)
+    if isinstance(s_, Tok) and s_.kind == "T":
+        # opaque text (e.g. an identifier): whether it starts with / contains a given pattern is not determined by the
+        # abstraction — both outcomes are explored
+        interp.events.append(("text-test", s_.name))
+        return interp.ctx.choose("text-test", 2) == 0
+    raise Inconclusive("starts_with on %r" % (s_,), interp.where())
+
+
+@model("core::str::<impl str>::trim", "core::str::<impl str>::trim_start", "core::str::<impl str>::trim_end",
+       "core::str::<impl str>::trim_matches", "core::str::<impl str>::trim_start_matches", "core::str::<impl str>::trim_end_matches")
+def m_str_trim(interp, args, info):
+    s_ = interp.strip(args[0])
+    if isinstance(s_, Tok) and s_.kind == "T":
+        # a sub-slice of the text: possibly the same text, but not in general — a different token
+        return Tok("T", "trimmed(%s)" % s_.name, s_.val, dom=s_.dom)
+    if isinstance(s_, StrV):
+        which = info["def"].rsplit("::", 1)[1]
+        if which == "trim":
+            return StrV(s_.s.strip())
+        if which == "trim_start":
+            return StrV(s_.s.lstrip())
+        if which == "trim_end":
+            return StrV(s_.s.rstrip())
+    raise Inconclusive("trim on %r" % (s_,), interp.where())
+
+
+def _float_cmp(interp, a, b):
+    a, b = interp.strip(a), interp.strip(b)
+    if isinstance(a, Tok) and isinstance(b, Tok) and a.kind == "F" and b.kind == "F":
+        if a.val == b.val:
+            return 0
+        # distinct integers may collide after a lossy conversion to floating point (above 2^53)
+        if interp.ctx.choose("float-collision", 2) == 1:
+            return 0
+        return (a.val > b.val) - (a.val < b.val)
+    raise Inconclusive("float comparison on %r %r" % (a, b), interp.where())
+
+
+@model("std::f64::<impl f64>::total_cmp", "core::f64::<impl f64>::total_cmp")
+def m_total_cmp(interp, args, info):
+    return ordering(_float_cmp(interp, args[0], args[1]))
+
+
+def _int_method(name, f):
+    def m(interp, args, info):
+        a, b = args[0], args[1]
+        if isinstance(a, bool) or isinstance(b, bool) or not isinstance(a, int) or not isinstance(b, int):
+            raise Inconclusive("%s on %r, %r" % (name, a, b), interp.where())
+        return f(a, b)
+    return m
+
+
+for _ty in ("usize", "u64", "u32", "u16", "u8"):
+    for _pfx in ("core", "std"):
+        MODELS["%s::num::<impl %s>::saturating_sub" % (_pfx, _ty)] = _int_method("saturating_sub", lambda a, b: max(a - b, 0))
+        MODELS["%s::num::<impl %s>::checked_sub" % (_pfx, _ty)] = _int_method("checked_sub", lambda a, b: some(a - b) if a >= b else NONE)
+        MODELS["%s::num::<impl %s>::wrapping_sub" % (_pfx, _ty)] = _int_method(
+            "wrapping_sub", lambda a, b, _bits={"usize": 64, "u64": 64, "u32": 32, "u16": 16, "u8": 8}[_ty]: (a - b) % (1 << _bits))
+        MODELS["%s::num::<impl %s>::min" % (_pfx, _ty)] = _int_method("min", min)
+        MODELS["%s::num::<impl %s>::max" % (_pfx, _ty)] = _int_method("max", max)
